@@ -102,7 +102,18 @@ func propC06Read(t *rapid.T) {
 	var err error
 	switch entry {
 	case 0:
-		n, err = rb.ReadFrom(&chunkReader{data: enc, sizes: drawChunking(t, "chunking")})
+		cr := &chunkReader{data: enc, sizes: drawChunking(t, "chunking")}
+		if len(enc) >= 4 && rapid.IntRange(0, 3).Draw(t, "cookieHeader") == 2 {
+			// the variant for callers that have already consumed the 4-byte cookie (as roaring64 does)
+			cr.pos = 4
+			n, err = rb.ReadFrom(cr, enc[0], enc[1], enc[2], enc[3])
+			if err == nil && int(n) == len(enc)-4 {
+				n = int64(len(enc)) // the documentation does not say whether the pre-read cookie is counted
+			}
+			desc += " (cookie passed separately)"
+		} else {
+			n, err = rb.ReadFrom(cr)
+		}
 	case 1:
 		n, err = rb.FromBuffer(enc)
 	case 2:
